@@ -76,6 +76,8 @@ def alias_path(term: P, self_name="self"):
         return alias_path(a[1], self_name)
     if tag == "obj":
         return alias_path(a[3], self_name)
+    if tag in ("maybe", "lc") and len(a) > 3 and isinstance(a[3], P):
+        return alias_path(a[3], self_name)
     if tag == "ite":
         return alias_path(a[2], self_name) or alias_path(a[3], self_name)
     if tag == "call":
@@ -328,6 +330,8 @@ def alias_roots(term: P, params, extra=frozenset()) -> set:
         return alias_roots(a[1], params, extra)
     if tag == "obj":
         return alias_roots(a[3], params, extra)
+    if tag in ("maybe", "lc") and len(a) > 3 and isinstance(a[3], P):
+        return alias_roots(a[3], params, extra)       # value from before a try block / a loop (the rebinding may not have happened)
     if tag == "ite":
         return alias_roots(a[2], params, extra) | alias_roots(a[3], params, extra)
     if tag == "comp":
@@ -478,3 +482,43 @@ def ctor_closure(mod, cls):
                     and n.func.attr in names:
                 todo.append(n.func.attr)
     return seen
+
+
+_FRESH = {"numpy.empty", "numpy.zeros", "numpy.ones", "numpy.full", "numpy.empty_like", "numpy.zeros_like", "numpy.ones_like", "numpy.full_like",
+          "numpy.array", "numpy.copy", ".copy", "numpy.arange", "numpy.linspace", "numpy.eye", "numpy.identity", "numpy.ascontiguousarray"}
+
+
+def inplace_buffer_rebinding(mod, cls):
+    """(buffers, offences): attributes of cls that some method fills in place through an ``out=`` / ``result=`` argument or a
+    whole-slice store, and the statements that bind such an attribute to something that is not a fresh allocation."""
+    buffers = {}
+    binds = []
+    for fn in mod.methods(cls):
+        ev = Ev(fn, mod.ctx).run()
+        for e in ev.events:
+            if e.kind == "call":
+                a = e.value.as_atom()
+                kw = dict(a[3]) if a and a[0] == "call" and len(a) > 3 and a[3] else {}
+                for k in ("out", "result"):
+                    v = kw.get(k)
+                    va = v.as_atom() if v is not None else None
+                    if va and va[0] == "attr" and va[1].key() == "self":
+                        buffers.setdefault(va[2], f"{fn.name}: {k}=self.{va[2]}")
+            elif e.kind == "store":
+                t = e.target.as_atom()
+                if t and t[0] == "attr" and t[1].key() == "self":
+                    binds.append((fn.name, t[2], e))
+    def is_fresh(v):
+        va = v.as_atom()
+        if va and va[0] == "obj":
+            va = va[3].as_atom()
+        return bool(va and va[0] == "call" and (call_name(va) in _FRESH)) or v.key() == "None"
+    # a work buffer is one the class allocates itself somewhere (an attribute that only ever wraps the caller's array, like the
+    # positions of a molecule moved by explicit in-place methods, is the caller's by design)
+    owned = {attr for _, attr, e in binds if attr in buffers and is_fresh(e.value) and e.value.key() != "None"}
+    buffers = {k: v for k, v in buffers.items() if k in owned}
+    off = []
+    for meth, attr, e in binds:
+        if attr in buffers and not is_fresh(e.value):
+            off.append((meth, attr, e.node, str(e.value)[:100]))
+    return buffers, off
